@@ -415,6 +415,17 @@ def rule_cmp1(ctx: Ctx) -> RuleResult:
           "comparators applied to the two models' key sets", DISCHARGED if ok else VIOLATED,
           "any() over the whole comparator tuple, on set(a.type.keys()) and set(b.type.keys())" if ok else why,
           f.node.lineno)
+    # the comparators consulted are the ones configured, all of them, as given
+    init = prog.func("json_to_models/registry.py", "ModelRegistry.__init__")
+    rr.instances += 1
+    asg = [n for n in walk_no_nested(init.node) if isinstance(n, ast.Assign) and norm(n.targets[0]) == "self._models_cmp"]
+    vararg = init.node.args.vararg.arg if init.node.args.vararg else None
+    ok0 = len(asg) == 1 and norm(asg[0].value) in (f"{vararg} or self.DEFAULT_MODELS_CMP", f"{vararg} if {vararg} else self.DEFAULT_MODELS_CMP",
+                                                   f"tuple({vararg}) or self.DEFAULT_MODELS_CMP", f"list({vararg}) or self.DEFAULT_MODELS_CMP")
+    rr.ob(init.relpath, init.qualname, norm(asg[0]) if asg else "self._models_cmp = ...", "the registry keeps exactly the "
+          "comparators it was given (the documented defaults if none)", DISCHARGED if ok0 else VIOLATED,
+          "stored as given" if ok0 else "the configured comparators are filtered / de-duplicated / transformed before use: a pair "
+          "accepted only by a dropped comparator is no longer merged", init.node.lineno)
     # the pairwise relation covers all pairs and is recorded symmetrically
     mm = prog.func("json_to_models/registry.py", "ModelRegistry.merge_models")
     rr.instances += 1
@@ -523,7 +534,10 @@ def rule_cmp2(ctx: Ctx) -> RuleResult:
         # threshold side: self.<attr> assigned from the constructor parameter
         def is_thr(e):
             return isinstance(e, ast.Attribute) and norm(e.value) == "self"
-        if is_thr(l) and not is_thr(r):
+        def measure_like(e):
+            return any(isinstance(x, ast.BinOp) and isinstance(x.op, ast.BitAnd) for x in ast.walk(e)) or \
+                any(isinstance(x, ast.Call) and isinstance(x.func, ast.Attribute) and x.func.attr == "intersection" for x in ast.walk(e))
+        if (is_thr(l) and not is_thr(r)) or (measure_like(r) and not measure_like(l)):
             l, r, op = r, l, _flip(op)
         thr_ok = is_thr(r)
         if pol == "number":
@@ -544,6 +558,14 @@ def rule_cmp2(ctx: Ctx) -> RuleResult:
             want = "|a ∩ b| / |a ∪ b| >= p"
         ok = thr_ok and meas_ok and op == ">="
         how = f"normal form `{norm(l)} {op} {norm(r)}`"
+        divs = [x for x in ast.walk(rets[0].value) if isinstance(x, ast.BinOp) and isinstance(x.op, (ast.Div, ast.FloorDiv, ast.Mod))
+                and isinstance(x.right, ast.Call) and norm(x.right.func) == "len"]
+        if divs:
+            rr.instances += 1
+            rr.ob(f.relpath, f.qualname, norm(divs[0]), f"`{pol}` is defined for every pair of key sets, two empty ones included "
+                  f"(two samples that are empty objects)", VIOLATED,
+                  f"division by `{norm(divs[0].right)}`: two models without fields raise ZeroDivisionError and abort the merge "
+                  f"(cross-multiply instead)", rets[0].lineno)
         if not meas_ok:
             how += " - the measured quantity is not the documented one"
         elif op != ">=":
